@@ -41,6 +41,9 @@ CLAIMS = {
  'C11': ("equivB_sound: every pattern with (?&name) references is proved equivalent (all strings) to the pattern obtained by independent inlining as a non-capturing group with the subpattern's own Unicode mode; undefined names must be rejected.",
          "partial by nature: group scoping is regex-syntax's; definitions are sampled.",
          "proved equivalence checker per definition"),
+ 'C12': ("modes_agree: one well-formed graph, no root edge on a continuation byte, matches ending on char boundaries (C04) => lexing as str and as [u8] gives the same Ok items with the same spans and the same list of bytes covered by errors (byte mode splits a rounded-up error into one-byte errors); every str-mode corpus definition is compiled a second time with utf8 = false and both compiled lexers are run on the same valid UTF-8 inputs; captured graphs compared; root checked.",
+         "acceptance of non-UTF-8 patterns only in byte mode is decided by utf8ClosedB in C04 and exercised in C19; byte-mode lexing of arbitrary bytes is part of C01/C02's corpus.",
+         "Lean theorem for all graphs/inputs + twin-definition correspondence"),
  'C13': ("construct / constructSkip model every CallbackRetVal / SkipRetVal impl row by row; lex_eq_spec holds for every callback table, so skips, custom errors and emitted variants are those of the reference lexer; zoo definitions carry callbacks of every supported return type, an error callback and bumping callbacks.",
          "callback bodies are executed, not modelled (same pure decision on both sides).",
          "Lean theorem (for all callback tables) + correspondence with every return type"),
